@@ -152,9 +152,18 @@ pub fn structured_docs() -> Vec<Doc> {
         };
         out.push(Doc { text: doc_with(Some(lit), "t", "    build: 'true'\n", ""), expect: e, why: format!("project name {:?}", n), kind_of_t: None });
     }
-    // (3) target names
-    for (n, lit) in [("t", "t"), ("my-t_2", "my-t_2"), ("007", "'007'"), ("-x", "'-x'"), ("a b", "a b"), ("a::b", "'a::b'"), ("", "''"), ("ünï", "ünï"), ("a.b", "a.b"), ("a/b", "a/b")] {
+    // (3) target names, in an unnamed project and in every named one (an imported project always has a name)
+    let tnames = [("t", "t"), ("my-t_2", "my-t_2"), ("007", "'007'"), ("-x", "'-x'"), ("a b", "a b"), ("a::b", "'a::b'"), ("", "''"), ("ünï", "ünï"), ("a.b", "a.b"), ("a/b", "a/b")];
+    for (n, lit) in tnames {
         out.push(Doc { text: doc_with(None, lit, "    build: 'true'\n", ""), expect: is_valid_name(n), why: format!("target name {:?}", n), kind_of_t: None });
+    }
+    for (pn, plit) in [("valid", "valid"), ("a-b", "a-b"), ("_x", "_x"), ("-bad", "'-bad'"), ("a::b", "'a::b'")] {
+        for (n, lit) in tnames {
+            if n == "t" {
+                continue; // (2)
+            }
+            out.push(Doc { text: doc_with(Some(plit), lit, "    build: 'true'\n", ""), expect: and(is_valid_name(pn), is_valid_name(n)), why: format!("target name {:?} in a project named {:?}", n, pn), kind_of_t: None });
+        }
     }
     // (4) top-level shapes
     for (extra, e) in [("bogus: 1\n", Expect::Reject), ("imports: {}\n", Expect::Accept), ("imports: []\n", Expect::DontCare), ("imports: notamap\n", Expect::Reject), ("Targets: {}\n", Expect::Reject), ("version: 2\n", Expect::Reject)] {
